@@ -223,7 +223,14 @@ where
                     // TODO: require source to be a BufRead
                     // let read = fill_buffer_bytes(source, buffer, Self::buffer_size())?;
                     buffer.resize(Self::buffer_size(), 0);
-                    let read = fill_buffer(source, buffer, None)?;
+                    let read = match fill_buffer(source, buffer, None) {
+                        Ok(read) => read,
+                        Err(err) => {
+                            // The buffer holds plaintext that was not encrypted, never hand it out.
+                            *self = Self::Unknown;
+                            return Err(err);
+                        }
+                    };
                     if read < buffer.len() {
                         // done reading
                         // shorten buffer accordingly
